@@ -65,3 +65,25 @@ Lemma file_hash_is_content_hash_l st c chunking :
   all_data (chunking c) = true -> delivered (chunking c) = c ->
   fst (file_calc true st (FFile c) chunking) = Some c.
 Proof. intros H1 H2. simpl. unfold calc. rewrite feed_all_data by assumption. simpl. now rewrite H2. Qed.
+
+(* ---- the generated bodies (Gen.v) are the model ---- *)
+From GU Require Import C20.Gen.
+
+Lemma generated_calc_is_calc st s : gen_calc calculate_body st s = calc true st s.
+Proof.
+  unfold gen_calc, calculate_body, calc. cbn [exec].
+  destruct (feed [] s) as [a o]. destruct o; reflexivity.
+Qed.
+
+Lemma generated_run_hist hist : forall st, run_hist_body calculate_body st hist = run_hist true st hist.
+Proof.
+  induction hist as [|s r IH]; intros st; [reflexivity|].
+  cbn [run_hist_body run_hist]. rewrite generated_calc_is_calc. apply IH.
+Qed.
+
+Lemma generated_file_calc_is_file_calc st n chunking :
+  gen_file_calc calculate_file_body calculate_body st n chunking = file_calc true st n chunking.
+Proof.
+  unfold gen_file_calc, calculate_file_body, file_calc.
+  destruct n as [c| |]; cbn [fexec]; [apply generated_calc_is_calc | reflexivity | reflexivity].
+Qed.
